@@ -325,7 +325,10 @@ Qed.
 (* ------------------------------------------------------------------ *)
 (* Part B: rejection lemmas                                            *)
 (* ------------------------------------------------------------------ *)
-Definition kw_dfa : list token := [kw_input_symbols; kw_epsilon; kw_stack_symbols; kw_tape_symbols; kw_blank; kw_accept; kw_reject].
+(* parse_dfa passes dfa_keywords() since fix F18 (before it fell back to the keywords of all four formats, kw_all) *)
+Definition kw_dfa : list token := [kw_input_symbols].
+(* the union of the keywords of the four formats *)
+Definition kw_all : list token := [kw_input_symbols; kw_epsilon; kw_stack_symbols; kw_tape_symbols; kw_blank; kw_accept; kw_reject].
 Definition kw_nfa : list token := [kw_input_symbols; kw_epsilon].
 Definition kw_pda : list token := [kw_input_symbols; kw_stack_symbols; kw_epsilon].
 Definition kw_tm : list token := [kw_input_symbols; kw_tape_symbols; kw_blank; kw_accept; kw_reject].
@@ -348,7 +351,7 @@ Definition rejected_by_all (text : list line) : Prop :=
   (forall sre, parse_dfa_with sre text = None) /\ parse_nfa text = None /\ parse_pda text = None /\ parse_tm text = None.
 
 Lemma rejected_by_all_intro text :
-  (forall sre lre kw, incl kw kw_dfa -> parse_automaton sre lre kw text = None) -> rejected_by_all text.
+  (forall sre lre kw, incl kw kw_all -> parse_automaton sre lre kw text = None) -> rejected_by_all text.
 Proof.
   intros Hr. unfold rejected_by_all.
   repeat split; [intros sre; rewrite parse_dfa_with_unfold | rewrite parse_nfa_unfold | rewrite parse_pda_unfold | rewrite parse_tm_unfold];
@@ -420,7 +423,7 @@ Proof.
 Qed.
 
 Theorem incomplete_transition_rejected_all : forall text l,
-  In l text -> is_trans kw_dfa l = true -> length l <= 2 -> rejected_by_all text.
+  In l text -> is_trans kw_all l = true -> length l <= 2 -> rejected_by_all text.
 Proof.
   intros text l Hin Ht Hlen. apply rejected_by_all_intro. intros sre lre kw Hkw.
   apply (incomplete_transition_rejected sre lre kw text l Hin); [|exact Hlen].
@@ -2556,12 +2559,33 @@ Module ParserExamples.
      end) = true.
   Proof. vm_compute. reflexivity. Qed.
 
-  (* a DFA with a (source) state named like a keyword of another format does not survive print / parse_dfa,
-     because parse_dfa falls back to the keywords of all four formats; the same automaton is fine as an NFA *)
-  Example dfa_keyword_state_rejected :
+  (* parse_dfa passes dfa_keywords() (fix F18): a DFA with a (source) state named like a keyword of another format
+     (blank, accept, ...) survives print / parse_dfa, exactly as the same automaton does as an NFA; a source state
+     named like a keyword of the DFA format itself (input_symbols, states, ...) still breaks the round trip *)
+  Example dfa_other_keyword_state_ok :
     let D := mkTDFA [tok "blank"] [tok "a"] [((tok "blank", tok "a"), tok "blank")] (tok "blank") [] in
+    tdfa_wf_b D = true /\ parse_dfa (print_dfa idT idP D) = Some D.
+  Proof. vm_compute. split; reflexivity. Qed.
+  Example dfa_accept_state_ok :
+    let D := mkTDFA [tok "accept"; tok "reject"] [tok "a"]
+               [((tok "accept", tok "a"), tok "reject"); ((tok "reject", tok "a"), tok "accept")] (tok "accept") [tok "accept"] in
+    tdfa_wf_b D = true /\ parse_dfa (print_dfa idT idP D) = Some D.
+  Proof. vm_compute. split; reflexivity. Qed.
+  Example dfa_keyword_state_rejected :
+    let D := mkTDFA [tok "input_symbols"] [tok "a"] [((tok "input_symbols", tok "a"), tok "input_symbols")] (tok "input_symbols") [] in
     tdfa_wf_b D = true /\ parse_dfa (print_dfa idT idP D) = None.
   Proof. vm_compute. split; reflexivity. Qed.
+  Example dfa_states_state_rejected :
+    let D := mkTDFA [tok "states"] [tok "a"] [((tok "states", tok "a"), tok "states")] (tok "states") [] in
+    tdfa_wf_b D = true /\ parse_dfa (print_dfa idT idP D) = None.
+  Proof. vm_compute. split; reflexivity. Qed.
+  (* the hypothesis is_trans kw_all of incomplete_transition_rejected_all cannot be weakened to kw_dfa:
+     a two-word line starting with a keyword of another format is a declaration there *)
+  Example incomplete_transition_other_keyword_not_rejected_all :
+    let text := [[tok "initial"; tok "p"]; [tok "stack_symbols"; tok "X"]] in
+    is_trans kw_dfa [tok "stack_symbols"; tok "X"] = true /\ parse_dfa text = None /\ parse_nfa text = None /\
+    parse_pda text <> None.
+  Proof. vm_compute. repeat split; try reflexivity. discriminate. Qed.
   Example nfa_other_keyword_state_ok :
     let N := mkTNFA [tok "blank"] [tok "a"] [((tok "blank", tok "a"), [tok "blank"])] (tok "blank") [] (tok "_") in
     tnfa_wf_b N = true /\ parse_nfa (print_nfa idT idP N) = Some N.
